@@ -5,6 +5,7 @@ import (
 	"context"
 	"encoding/json"
 	"fmt"
+	"github.com/DATA-DOG/go-sqlmock"
 	"regexp"
 	"sort"
 	"strings"
@@ -39,9 +40,35 @@ type Case struct {
 	// Cols: every kept table also loses (1) or gains (2) a column that takes part in no key, so that
 	// its ModifyTable mixes column and foreign-key changes.
 	Cols int `json:"cols,omitempty"`
+	// Chain != 0: instead of Graph, table 0 (kept) references the first of N-1 new tables, which
+	// reference each other in a chain (closed into a cycle if negative): change sets of any size.
+	Chain int `json:"chain,omitempty"`
+	// Up: the chain hangs the other way round: the first new table references the kept table.
+	Up bool `json:"up,omitempty"`
 }
 
 func (c Case) two() bool { return c.Schemas >= 2 }
+
+// has: does table i reference table j?
+func (c Case) has(i, j int) bool {
+	if c.Chain == 0 {
+		return c.Graph&(1<<uint(i*c.N+j)) != 0
+	}
+	// a chain: the kept table 0 references the first new table, every new table the next one, and
+	// (Chain < 0) the last one the first, closing a cycle.
+	n := c.N
+	switch {
+	case c.Up && i == 0:
+		return false
+	case c.Up && i == 1 && j == 0:
+		return true // the first new table references the kept one (which is altered in the same plan)
+	case j == i+1:
+		return true
+	case c.Chain < 0 && i == n-1 && j == 1:
+		return true
+	}
+	return false
+}
 
 func (c Case) sname(i int) string { return fmt.Sprintf("s%d", i%2) }
 
@@ -114,7 +141,7 @@ func build(c Case, dialect string) (cur, des *schema.Realm) {
 		}
 		for i := 0; i < c.N; i++ {
 			for j := 0; j < c.N; j++ {
-				if tabs[i] == nil || c.Graph&(1<<uint(i*c.N+j)) == 0 || !edge(i, j) {
+				if tabs[i] == nil || !c.has(i, j) || !edge(i, j) {
 					continue
 				}
 				tj := j
@@ -325,6 +352,13 @@ func Eval(c Case) (problems []string, stmts []string) {
 	if c.Dialect == "postgres" {
 		differ, planner = postgres.DefaultDiff, postgres.DefaultPlan
 	}
+	if c.Dialect == "tidb" {
+		tidbOnce.Do(openTiDB)
+		if tidbErr != nil {
+			return []string{"harness: " + tidbErr.Error()}, nil
+		}
+		planner = tidbPlanner
+	}
 	var changes []schema.Change
 	var err error
 	if c.two() {
@@ -371,6 +405,25 @@ func Eval(c Case) (problems []string, stmts []string) {
 	return problems, stmts
 }
 
+// the TiDB planner: the MySQL driver opened on a mocked connection that reports a TiDB version
+// (planning issues no queries; one driver serves all cases).
+var (
+	tidbOnce    sync.Once
+	tidbPlanner migrate.PlanApplier
+	tidbErr     error
+)
+
+func openTiDB() {
+	db, m, err := sqlmock.New()
+	if err != nil {
+		tidbErr = err
+		return
+	}
+	m.ExpectQuery("SELECT @@version").WillReturnRows(sqlmock.NewRows([]string{"@@version", "@@collation_server", "@@character_set_server", "@@lower_case_table_names"}).
+		AddRow("5.7.25-TiDB-v6.1.0", "utf8mb4_bin", "utf8mb4", 2))
+	tidbPlanner, tidbErr = mysql.Open(db)
+}
+
 func splits(n int, f func([]int)) {
 	dims := make([]int, n)
 	for i := range dims {
@@ -381,7 +434,7 @@ func splits(n int, f func([]int)) {
 
 func Run(r *report.Run) {
 	maxFull := 3
-	r.Rule = "every directed graph with self loops on n tables (n<=3: all 2^(n*n) graphs x all 3^n splits of the tables into kept/created/dropped x 3 modes for edges between kept tables {unchanged, added, dropped} x {MySQL, PostgreSQL} x plan mode {unset, deferred, in-place, dump}, for n<=3 also with the kept tables' foreign keys retargeted (ModifyForeignKey) and with every kept table losing / gaining an unrelated column in the same change, and for n in 2..3 also with the tables spread over two schemas (in a third layout a schema that loses all its tables is dropped) so that tables of different schemas share a name (realm diff, schema-qualified statements); thorough adds n=4: all 65536 graphs x all 81 splits with kept-kept edges added, x 2 dialects, plan mode unset); changes from the real differ, plans from the real planners, every change set planned twice (identical plans required); each plan's statements are replayed from their text by a reference catalogue of existing tables and live foreign keys; non-trivial = case with a non-empty plan; distinct by construction"
+	r.Rule = "every directed graph with self loops on n tables (n<=3: all 2^(n*n) graphs x all 3^n splits of the tables into kept/created/dropped x 3 modes for edges between kept tables {unchanged, added, dropped} x {MySQL, PostgreSQL; the TiDB planner (MySQL driver on a mocked TiDB connection) in the default plan mode} x plan mode {unset, deferred, in-place, dump}, for n<=3 also with the kept tables' foreign keys retargeted (ModifyForeignKey) and with every kept table losing / gaining an unrelated column in the same change, and for n in 2..3 also with the tables spread over two schemas (in a third layout a schema that loses all its tables is dropped) so that tables of different schemas share a name (realm diff, schema-qualified statements); plus, for the three planners, 4096 large change sets on 5 tables (four kept tables gaining a column and a foreign key to a new table, and every subset of the 12 possible new foreign keys between them) and chains / rings of 1..16 new tables hanging off (or holding) a kept table; thorough adds n=4: all 65536 graphs x all 81 splits with kept-kept edges added, x 2 dialects, plan mode unset); changes from the real differ, plans from the real planners, every change set planned twice (identical plans required); each plan's statements are replayed from their text by a reference catalogue of existing tables and live foreign keys; non-trivial = case with a non-empty plan; distinct by construction"
 	r.Assumptions = []string{
 		"statement text is parsed by regular expressions over names the generator chose (t<i>, fk_<i>_<j>)",
 		"random larger graphs are not claimed (sampling is a different family)",
@@ -444,8 +497,11 @@ func Run(r *report.Run) {
 				if kk != 0 && nk == 0 {
 					continue // no kept tables: the three edge modes coincide
 				}
-				for _, d := range []string{"mysql", "postgres"} {
+				for _, d := range []string{"mysql", "postgres", "tidb"} {
 					for mi, m := range modes {
+						if d == "tidb" && (mi != 0 || j.n > 3) {
+							continue // the TiDB planner: default plan mode, n<=3
+						}
 						// two-schema layout (same-named tables in different schemas) for n in 2..3, default mode.
 						layouts := []int{0}
 						if mi == 0 && j.n >= 2 && j.n <= 3 {
@@ -486,6 +542,67 @@ func Run(r *report.Run) {
 			}
 		})
 	})
+	// large change sets (more than a dozen single changes; the TiDB planner re-sorts them): four kept
+	// tables that all gain a column and a foreign key to a fifth, new table, plus every subset of the
+	// 12 possible foreign keys between the kept tables, all of them new.
+	enum.Parallel(1<<12, func(sub, w int) {
+		if r.Expired() {
+			return
+		}
+		g, bit := uint32(0), 0
+		for i := 0; i < 4; i++ {
+			g |= 1 << uint(i*5+4)
+			for j := 0; j < 4; j++ {
+				if i == j {
+					continue
+				}
+				if sub&(1<<bit) != 0 {
+					g |= 1 << uint(i*5+j)
+				}
+				bit++
+			}
+		}
+		for _, d := range []string{"mysql", "postgres", "tidb"} {
+			c := Case{N: 5, Graph: g, Split: []int{0, 0, 0, 0, 1}, KK: 1, Dialect: d, Cols: 2}
+			key := fmt.Sprintf("L%d-%v", w, c)
+			cur.Store(key, time.Now())
+			problems, stmts := Eval(c)
+			cur.Delete(key)
+			plans.Add(1)
+			if len(stmts) > 0 {
+				nonEmpty.Add(1)
+			}
+			if len(problems) > 0 {
+				r.Violate(classify(c, problems), fmt.Sprintf("n=5 graph=%s split=%v kk=1 cols=2 %s: %s\n    plan: %s", edges(c), c.Split, c.Dialect, strings.Join(problems, " | "), strings.Join(stmts, ";\n          ")), c)
+			}
+		}
+	})
+	// chains of new tables of growing length (planners that re-sort many single changes).
+	enum.Parallel(32, func(k, w int) {
+		n := k/2 + 2 // 1..16 new tables + the kept one
+		chain := n - 1
+		if k%2 == 1 {
+			chain = -chain
+		}
+		sp := make([]int, n)
+		for i := 1; i < n; i++ {
+			sp[i] = 1
+		}
+		for _, d := range []string{"mysql", "postgres", "tidb"} {
+			for _, cu := range [][2]int{{0, 0}, {2, 0}, {2, 1}, {1, 1}} {
+				cols := cu[0]
+				c := Case{N: n, Split: sp, Dialect: d, Cols: cols, Chain: chain, Up: cu[1] == 1}
+				problems, stmts := Eval(c)
+				plans.Add(1)
+				if len(stmts) > 0 {
+					nonEmpty.Add(1)
+				}
+				if len(problems) > 0 {
+					r.Violate(classify(c, problems), fmt.Sprintf("chain of %d new tables (cycle=%v) cols=%d %s: %s\n    plan: %s", n-1, chain < 0, cols, c.Dialect, strings.Join(problems, " | "), strings.Join(stmts, ";\n          ")), c)
+				}
+			}
+		}
+	})
 	r.AddEvals(plans.Load())
 	for i := int64(0); i < nonEmpty.Load(); i++ {
 		r.CaseDistinct(true)
@@ -496,8 +613,9 @@ func Run(r *report.Run) {
 }
 
 var (
-	reSchemaFirst = regexp.MustCompile(`^(?:second plan: )?stmt \d+ drops schema s\d while foreign key (fk_\d+_\d+) of table \S+ still points at its table \S+$`)
-	reNotLive     = regexp.MustCompile(`^(?:second plan: )?stmt \d+ drops foreign key (fk_\d+_\d+) which is not live$`)
+	reSchemaFirst       = regexp.MustCompile(`^(?:second plan: )?stmt \d+ drops schema s\d while foreign key (fk_\d+_\d+) of table \S+ still points at its table \S+$`)
+	reTableBeforeSchema = regexp.MustCompile(`^(?:second plan: )?stmt \d+ drops \S+ while foreign key fk_\d+_\d+ of table (s\d)\.\S+ still points at it$`)
+	reNotLive           = regexp.MustCompile(`^(?:second plan: )?stmt \d+ drops foreign key (fk_\d+_\d+) which is not live$`)
 )
 
 // classify names the known finding a failing case belongs to ("" = none): the planners emit
@@ -508,6 +626,32 @@ var (
 func classify(c Case, problems []string) string {
 	if c.Schemas != 3 {
 		return ""
+	}
+	if c.Dialect == "tidb" {
+		// the TiDB planner puts DROP DATABASE last: a table of another schema that a foreign key of
+		// the dropped schema points at is dropped while that key is still declared.
+		dropped := map[string]bool{}
+		for k := 0; k < 2; k++ {
+			now, then := false, false
+			for i, sp := range c.Split {
+				if i%2 == k {
+					now = now || sp != 1
+					then = then || sp != 2
+				}
+			}
+			if now && !then {
+				dropped[fmt.Sprintf("s%d", k)] = true
+			}
+		}
+		all := true
+		for _, p := range problems {
+			m := reTableBeforeSchema.FindStringSubmatch(p)
+			all = all && m != nil && dropped[m[1]]
+		}
+		if all {
+			return "tidb-schema-dropped-after-the-tables-its-foreign-keys-point-at"
+		}
+		// (two dropped schemas are dropped in name order, as by the MySQL planner: below.)
 	}
 	into := map[string]bool{}
 	for _, p := range problems {
@@ -551,7 +695,7 @@ func edges(c Case) string {
 	var out []string
 	for i := 0; i < c.N; i++ {
 		for j := 0; j < c.N; j++ {
-			if c.Graph&(1<<uint(i*c.N+j)) != 0 {
+			if c.has(i, j) {
 				out = append(out, fmt.Sprintf("%d->%d", i, j))
 			}
 		}
